@@ -84,7 +84,7 @@ fn viol(sig: String, msg: String, f: &[u8], suf: &[u8]) -> Violation {
 
 pub fn run(ctx: &Ctx, replay: Option<&J>) -> CheckResult {
     let rule = "valid frames of every payload length L=0..=1023 (random payloads, random reserved bits) plus every golden frame (typed decode) and structured / hostile frames of every supported number (incl. 1029 frames whose byte counter exceeds the payload) x \
-        suffixes {1,2,3 bytes, many random bytes, another valid frame, a copy of the frame itself, a damaged copy, >1029 random bytes, 0xD3 runs, 0x00/0xFF runs}; oracle: (frame_len, data_len, payload, \
+        suffixes {1,2,3 bytes, many random bytes, another valid frame, a copy of the frame itself, a damaged copy, >1029 random bytes, 0xD3 runs, 0x00/0xFF runs, and for every length suffixes that bring the total to 65535, 65536, 65537, 65536+L+5, 65536+L+6, 131072, 131075 and 196608+ bytes}; oracle: (frame_len, data_len, payload, \
         frame bytes, crc, message_number, Debug of decoded message) identical with and without suffix, message_number == first 12 payload bits \
         iff L>=2 else None (then decode is Empty); next_msg_frame delivers the same frame from offset 0 with and without the suffix. non-trivial = non-empty suffix; distinct = hash(frame, suffix)"
         .to_string();
@@ -158,6 +158,38 @@ pub fn run(ctx: &Ctx, replay: Option<&J>) -> CheckResult {
                                 ev.excluded_known += 1;
                             } else if vs.len() < 2 {
                                 vs.push(viol(sig, msg, &f, suf));
+                            }
+                        }
+                    }
+                }
+                if rep == 0 {
+                    // long suffixes: total lengths around the multiples of 65536 (a length kept in 16 bits wraps there)
+                    let fl = f.len();
+                    for total in [65_535usize, 65_536, 65_537, 65_536 + fl - 1, 65_536 + fl, 131_072, 131_072 + 3, 196_608 + fl / 2] {
+                        if total <= fl {
+                            continue;
+                        }
+                        let mut suf = vec![0u8; total - fl];
+                        let fill = rng.below(3);
+                        for (i, b) in suf.iter_mut().enumerate() {
+                            *b = match fill {
+                                0 => 0,
+                                1 => (i as u8).wrapping_mul(31).wrapping_add(7),
+                                _ => 0xD3,
+                            };
+                        }
+                        ev.eval();
+                        match oracle(&f, &suf) {
+                            Ok(()) => {
+                                ev.nontrivial_hash(hash_u64s(&[l as u64, total as u64, fill, job as u64]));
+                                ev.class("suffix-reaching-64KiB-multiples");
+                            }
+                            Err((sig, msg)) => {
+                                if ctx.is_known(&sig) {
+                                    ev.excluded_known += 1;
+                                } else if vs.len() < 2 {
+                                    vs.push(viol(format!("{}(long-suffix)", sig), format!("total length {}: {}", total, msg), &f, &suf));
+                                }
                             }
                         }
                     }
